@@ -343,6 +343,10 @@ where
                 let rx_packet = RxPacket::Pubrec(pubrec);
                 let action_id = utils::rx_action_id(&rx_packet);
 
+                // The PUBLISH has been received (or refused); it must not be sent again on resume.
+                utils::linear_search_by_key(&session.retrasmit_queue, action_id)
+                    .and_then(|pos| session.retrasmit_queue.remove(pos));
+
                 // PUBREC with an error reason ends the exchange: no PUBREL/PUBCOMP will follow,
                 // so the send quota slot is released here.
                 if failed && connection.send_quota != connection.remote_receive_maximum {
